@@ -54,6 +54,14 @@ checks = {
    text="Bounded-exhaustive input enumeration with an invariant oracle on the real code: every byte string up to length 4 (thorough 5) over one representative per lexer character class in three contexts, every token string up to length 3 (thorough 4) over a 47-token vocabulary incl. malformed literals, every single-token and single-byte deviation of ~1.9k corpus programs, and scaled programs at each implementation limit; in-memory and file APIs. Worker processes make a panic in a library goroutine attributable to one input.",
    note="Assumes: the character-class representatives cover the lexer's case analysis; hang = no return within 60 s; inputs whose result needs >2^20 bytes of repeated string are excluded by the property (decided by the reference model).",
    tech="bounded-exhaustive enumeration of inputs (bytes, tokens, deviations, limit-scaled programs) with a no-crash/no-hang invariant, process-isolated", ref="§4 C06"),
+ "C11": dict(cat="model_checking",
+   text="Stateless model checking of the real ParseFile/InterpretFile/UnmarshalFile pipeline under a controlled scheduler: package bcl is rewritten at check time (go build -overlay) so that channel operations, go, select, close, locks go through mc/vsched; for 10 inputs (valid / early+late syntax error / early+late lexical failure) x every reader script of a bounded family (1-3 chunks, <=2 non-default answers: zero-byte read, data+EOF, error, data+error) x token-buffer sizes {10,1,2}, ALL schedules with <=1 (thorough 2-3) preemptions are executed (~8x10^5 quick). Every execution must reach quiescence with the call returned, no goroutine left, Close called once, the delivered read error returned, <=3 reads after a lexical failure, and the in-memory outcome.",
+   note="Trusted: the scheduler's channel/select model (mc/vsched, unit-tested) and the instrumenter; code between visible operations runs atomically (sound if race-free, which C12 checks). Deadlock/leak are decided exactly by the scheduler, no clocks.",
+   tech="stateless model checking: exhaustive exploration of goroutine schedules up to a preemption bound x fault-injecting reader scripts, on the real code", ref="§4 C11"),
+ "C12": dict(cat="model_checking",
+   text="Happens-before race detection on every schedule up to a preemption bound (delay bound for the 7-9 goroutine harnesses) of the instrumented real code: accesses to package variables, fields of bcl structs and captured locals are logged and checked with vector clocks that advance only on the program's own synchronisation. Harnesses: the pipeline on multi-chunk inputs with early errors, and pairs of concurrent callers (Parse, ParseFile, Interpret, Execute||Execute and Execute||Dump on a shared Prog, Bind); each call's result must also equal its sequential result. A free-running Go race-detector pass over the same bodies is supplementary (sampling).",
+   note="Trusted: instrumenter coverage (element accesses are attributed to their holder; accesses inside the standard library are not logged) and the vector-clock edges of mc/vsched.",
+   tech="stateless model checking with a vector-clock race oracle over all schedules up to a preemption/delay bound", ref="§4 C12"),
  "C13": dict(cat="fault_enumeration",
    text="Every cut point (crash point of an interrupted writer) of the dump of every accepted corpus program is loaded by the real LoadProg, whole and one byte per read, and must give an error; all 2^16 magic values and version pairs are enumerated. Exhaustive over the stated space, no sampling.",
    note="Trusted: the corpus K∪S reaches every section/constant kind and size class; crash = truncation at a byte boundary. Independent decoder (mc/bc) is used only to locate section boundaries.",
@@ -73,7 +81,7 @@ m = {
            "baseline_off_cmd": "cd /repo && GOFLAGS=-mod=mod GOPROXY=off GOSUMDB=off go test -vet=off -count=1 ./...",
            "source_commits": [], "add_only": True},
  "engines": [
-   {"name": "bclmc", "path": "mc", "serves_properties": sorted(checks), "kind_free_text": "hand-written bounded-exhaustive explorer: process-sharded enumerators, reference models (mc/ref, mc/bc), controlled scheduler (mc/vsched)"},
+   {"name": "bclmc", "path": "mc", "serves_properties": sorted(checks), "kind_free_text": "hand-written explorer (no off-the-shelf Go model checker in the image): bounded-exhaustive: process-sharded enumerators, reference models (mc/ref, mc/bc), controlled scheduler (mc/vsched)"},
  ],
  "checks": [],
  "not_applicable": na,
